@@ -71,12 +71,13 @@ Fixpoint body_chunks (fuel : nat) (limit total : Z) : list Z :=
 Definition recv_grpc (comp : bool) (c : cfg) (w : wire) : outcome Z :=
   let size := u32 (w_prefix w) in                        (* binary.BigEndian.Uint32(b[1:]) *)
   if maxRecv c <? wrap64 size then Err ETooLarge          (* int(size) > max *)
-  else if w_avail w <? size then (if w_avail w =? 0 then Err EEOF else Err EUnexpectedEOF)   (* io.ReadFull *)
+  else if w_avail w <? size then Err EUnexpectedEOF       (* io.ReadFull; a plain io.EOF after the header is
+                                                             turned into ErrUnexpectedEOF (fix bf8655f, C06) *)
   else if w_flag w then
     if negb comp then Err EOther
     else match w_inflate w with
-         | None => if size =? 0 then Err EEOF   (* gzip.NewReader on an empty payload: io.EOF, passed on *)
-                   else Err EOther
+         | None => Err EOther                    (* also io.EOF from gzip.NewReader on an empty payload: an
+                                                    error, not the end of the stream (fix 349080d, C06) *)
          | Some d => if maxRecv c <? d then Err ETooLarge  (* n := buf.Len(); n > max *)
                      else unmarshal (w_valid w) d
          end
